@@ -506,8 +506,271 @@ def odd_types_part(check):
                         broken="correspondence L2 format_type on unusual types (theorems TsV.C07_Backends.*)")
 
 
+RN_NOUNS = ["Account", "Address", "ApiKey", "AuditEvent", "Basket", "Booking", "Campaign", "Contact", "Coupon", "Customer", "Device",
+            "Discount", "Document", "Feature", "Invoice", "Ledger", "LoginAttempt", "Membership", "Message", "Notification", "Order",
+            "OrderItem", "Organization", "Payment", "Permission", "Product", "Refund", "Report", "Role", "Session", "Shipment",
+            "Subscription", "TaxRate", "Team", "Ticket", "Token", "UserProfile", "Vault", "Warehouse", "Webhook", "Zone"]
+RN_PLURAL = {"struct": "structs", "enum": "enums", "alias": "aliases", "const": "consts"}
+RN_SUFFIXES = ["", "", "", "Request", "Response", "Summary", "Id", "Kind", "Status", "List", "V2", "Draft"]
+
+
+def renamed_program(rng, k):
+    """one program of the renamed-many dimension: dict(items=[abstract items in declaration order], renames=[(kind, Rust name,
+    wire name, how)], counts={kind: n}, order=...)"""
+    n = rng.randint(20, 80)
+    dominant = ["struct", "struct", "enum", "alias", "const", "even", "struct", "enum"][k % 8]
+    kinds_all = ["struct", "enum", "alias", "const"]
+    if dominant == "even":
+        counts = {kd: n // 4 for kd in kinds_all}
+        counts["struct"] += n - sum(counts.values())
+    else:
+        nd = max(1, min(n, int(round(n * rng.uniform(0.6, 0.95)))))
+        others = [kd for kd in kinds_all if kd != dominant and (kd != "const" or rng.random() < 0.3)]
+        counts = {kd: 0 for kd in kinds_all}
+        counts[dominant] = nd
+        for _ in range(n - nd):
+            counts[rng.choice(others)] += 1
+    words = set()
+    while len(words) < n:
+        words.add(rng.choice(RN_NOUNS) + rng.choice(RN_SUFFIXES))
+    words = sorted(words)
+    rng.shuffle(words)
+    kind_of, pos = {}, 0
+    for kd in kinds_all:
+        for w in words[pos:pos + counts[kd]]:
+            kind_of[w] = kd
+        pos += counts[kd]
+    def rust_name(w):
+        return re.sub(r"(?<=[a-z0-9])(?=[A-Z])", "_", w).upper() if kind_of[w] == "const" else w
+    names = {w: rust_name(w) for w in words}
+    types = [names[w] for w in words if kind_of[w] != "const"]
+    # ---- which items carry a container-level serde(rename), and to what
+    renames = {}            # Rust name -> (wire name, how)
+    by_kind = {kd: sorted(names[w] for w in words if kind_of[w] == kd) for kd in kinds_all}
+    nren = rng.choice([0, 1, 1, 2, 3, 4, 5, 6, 8])
+    # most renames go to the kind with the most items (the order of a kind's list is what the rename may disturb)
+    biggest = max(kinds_all, key=lambda kd: counts[kd])
+    tries = 0
+    while len(renames) < nren and tries < 100:
+        tries += 1
+        kd = biggest if rng.random() < 0.7 else rng.choice([x for x in kinds_all if counts[x]])
+        free = [x for x in by_kind[kd] if x not in renames]
+        if not free:
+            continue
+        me = rng.choice(free)
+        peers = by_kind[kd]
+        how = rng.choice(["before", "between", "after", "after", "swap", "equal", "case", "same", "kebab"])
+        snake = re.sub(r"(?<=[a-z0-9])(?=[A-Z])", "_", me).lower()
+        if how == "before":
+            new = rng.choice(["A0" + me, "AAA" + me, "0" + snake]) if kd != "const" else "A0_" + me
+        elif how == "after":
+            new = rng.choice([snake + "_v2", snake, "zz" + me, me[0].lower() + me[1:]])
+        elif how == "between":
+            a = rng.choice(peers)
+            new = a + rng.choice(["A", "0", "_", "Z"])
+            if new in names.values():
+                continue
+        elif how == "swap":
+            free2 = [x for x in free if x != me]
+            if not free2 or len(renames) + 2 > nren:
+                continue
+            other = rng.choice(free2)
+            renames[other] = (me, "swap")
+            new = other
+        elif how == "equal":
+            # the name another item (of the same or of another kind) has in Rust and keeps
+            new = rng.choice([x for x in names.values() if x != me])
+        elif how == "case":
+            new = rng.choice([me.lower(), me.upper()])
+        elif how == "kebab":
+            new = snake.replace("_", "-")
+        else:
+            new = me
+        renames[me] = (new, how)
+    # ---- the items
+    ts = [m_path("typeshare")]
+    def ref():
+        r = rng.random()
+        leaf = t_path(rng.choice(types)) if types and r < 0.6 else t_path(rng.choice(["String", "u8", "u32", "bool", "f64", "i32"]))
+        r = rng.random()
+        return (leaf if r < 0.4 else t_path("Option", [leaf]) if r < 0.6 else t_path("Vec", [leaf]) if r < 0.8
+                else t_path("HashMap", [t_path("String"), leaf]))
+    items = []
+    for w in words:
+        kd, name = kind_of[w], names[w]
+        attrs = list(ts)
+        if rng.random() < 0.5:
+            attrs.append(m_list("derive", [m_path("Serialize"), m_path("Deserialize")]))
+        if name in renames:
+            extra = [m_nv("rename", lit_s(renames[name][0]))]
+            if kd in ("struct", "enum") and rng.random() < 0.3:
+                extra.append(m_nv("rename_all", lit_s(rng.choice(["camelCase", "snake_case", "PascalCase"]))))
+                rng.shuffle(extra)
+            attrs.append(m_list("serde", extra))
+        if kd == "struct":
+            it = {"kind": "struct", "attrs": attrs, "ident": name, "generics": [],
+                  "fields": ("named", [field([], fn, ref()) for fn in rng.sample(["id", "label", "owner", "items", "parent", "note"], rng.randint(1, 3))])}
+        elif kd == "enum":
+            if rng.random() < 0.5:
+                vs = [{"attrs": [], "ident": v, "fields": ("unit",)} for v in rng.sample(["Active", "Closed", "Pending", "Unknown"], rng.randint(1, 3))]
+            else:
+                attrs.append(m_list("serde", [m_nv("tag", lit_s("type")), m_nv("content", lit_s("content"))]))
+                vs = [{"attrs": [], "ident": "Empty", "fields": ("unit",)}, {"attrs": [], "ident": "One", "fields": ("unnamed", [field([], None, ref())])},
+                      {"attrs": [], "ident": "Detailed", "fields": ("named", [field([], "value", ref())])}][rng.choice([0, 0, 1]):rng.randint(2, 3)]
+            it = {"kind": "enum", "attrs": attrs, "ident": name, "generics": [], "variants": vs}
+        elif kd == "alias":
+            it = {"kind": "alias", "attrs": attrs, "ident": name, "generics": [], "ty": ref()}
+        else:
+            v = rng.choice([0, 1, 42, 255, 1000000])
+            it = {"kind": "const", "attrs": attrs, "ident": name, "ty": t_path(rng.choice(["u32", "i32", "u8"])), "expr_text": str(v), "init": ("i", v, "")}
+        items.append(it)
+    order = rng.choice(["shuffled", "shuffled", "shuffled", "shuffled", "ascending", "descending", "by-kind", "nearly-sorted"])
+    if order in ("ascending", "descending", "nearly-sorted"):
+        items.sort(key=lambda it: it["ident"], reverse=(order == "descending"))
+        if order == "nearly-sorted":
+            for _ in range(3):
+                i, j = rng.randrange(len(items)), rng.randrange(len(items))
+                items[i], items[j] = items[j], items[i]
+    elif order == "by-kind":
+        items.sort(key=lambda it: kinds_all.index(it["kind"]))
+    return dict(items=items, counts=counts, order=order,
+                renames=[(it["kind"], it["ident"], renames[it["ident"]][0], renames[it["ident"]][1]) for it in items if it["ident"] in renames])
+
+
+def renamed_many_part(check):
+    """quantity x container-level renames: programs of 20-80 annotated items of every kind (structs, enums, aliases, consts; one kind
+    usually dominates, so that each kind's list gets longer than the 20 elements up to which std sorts by plain insertion) in shuffled /
+    ascending / descending / nearly sorted / grouped declaration order, in which 0-8 items carry a container-level serde(rename) to a
+    name that sorts before / between / after the Rust names of its kind, that differs only in case, that is another item's Rust name, or
+    that swaps two names - so that the emitted name and the Rust name of an item sit at different places of the per-kind order the
+    reconciliation step establishes.  Split over 1-3 files of one or two crates.  Every program in-process through one back end in
+    single-file mode and another in folder mode; the first 40 (thorough: 200) through all six back ends, through the binary with -o
+    and -d, and through the model: output or a diagnostic, never a panic (exit 101), an abort or a hang; and the same definitions as
+    the model writes"""
+    rng = check.rng
+    nprog, nfull = (1000, 200) if check.thorough else (200, 40)
+    g = Gen(rng)
+    progs, mreqs, rreqs, meta, allnames = [], [], [], [], set()
+    for k in range(nprog):
+        p = renamed_program(rng, k)
+        nfiles = rng.choice([1, 1, 2, 3])
+        two_crates = nfiles > 1 and rng.random() < 0.3
+        cuts = sorted(rng.sample(range(1, len(p["items"])), nfiles - 1))
+        chunks = [p["items"][a:b] for a, b in zip([0] + cuts, cuts + [len(p["items"])])]
+        p["files"] = [{"crate": ("beta_x" if two_crates and i == nfiles - 1 else "alpha"), "rel": "src/%s.rs" % ("lib" if i == 0 else "part%d" % i),
+                       "file": {"attrs": [], "items": c}} for i, c in enumerate(chunks)]
+        p["label"] = "%d items (%s), declaration order %s, %d file(s)%s, %d renamed%s" % (
+            len(p["items"]), ", ".join("%d %s" % (v, RN_PLURAL[kd]) for kd, v in p["counts"].items() if v), p["order"], nfiles,
+            " in two crates" if two_crates else "", len(p["renames"]),
+            ": " + ", ".join("%s %s -> %r (%s)" % r for r in p["renames"]) if p["renames"] else "")
+        full = k < nfull
+        if full:
+            for f in p["files"]:
+                allnames |= l2.names_of(f["file"])
+        check.count("renamed-many-programs")
+        check.count("renamed-many-renames", len(p["renames"]))
+        for _, _, _, how in p["renames"]:
+            check.count("renamed-many-rename-" + how)
+        check.count("renamed-many-order-" + p["order"])
+        for kd, v in p["counts"].items():
+            if v > 20:
+                check.count("renamed-many-more-than-20-%s" % RN_PLURAL[kd])
+                if any(r[0] == kd for r in p["renames"]):
+                    check.count("renamed-many-more-than-20-%s-with-a-renamed-one" % RN_PLURAL[kd])
+        if full:
+            progs.append(p)
+        p["texts"] = [render_file(f["file"]) for f in p["files"]]
+        for mode in ("single", "folder"):
+            for lang in (LANGS if mode == "single" and full else [LANGS[(k + 3 * (mode == "folder")) % 6]]):
+                cfg = {"package": "proto" if lang == "go" else "com.example", "type_mappings": {}}
+                jobs = [{"crate": f["crate"] if mode == "folder" else "", "file_name": "out", "path": "ws/%s/%s" % (f["crate"], f["rel"]), "file": f["file"]}
+                        for f in p["files"]]
+                if full:
+                    m, r, texts = l2.requests(lang, cfg, jobs, g, multi_file=(mode == "folder"))
+                else:
+                    m, r = None, {"op": "generate", "lang": lang, "config": cfg, "multi_file": mode == "folder", "target_os": [],
+                                  "files": [{"src": t, "crate": j["crate"], "file_name": j["file_name"], "path": j["path"]} for j, t in zip(jobs, p["texts"])]}
+                mreqs.append(m)
+                rreqs.append(r)
+                meta.append((p, mode, lang, cfg, p["texts"]))
+    rans = runner(rreqs)
+    for (p, mode, lang, cfg, texts), ra in zip(meta, rans):
+        check.saw(("renamed-many", mode, lang, "|".join(texts)), nontrivial=bool(p["renames"]))
+        check.count("renamed-many-%s-%s" % (mode, "panic" if "panic" in ra else "ok" if "ok" in ra else "error"))
+        if "panic" in ra:
+            check.violation("%s, %s mode, in-process, on a program of %s: %s" % (
+                lang, "single-file" if mode == "single" else "folder", p["label"],
+                "no answer (endless loop)" if ra.get("hang") else "panic / crash at " + str(ra["panic"])),
+                            case={"lang": lang, "config": cfg, "multi_file": mode == "folder", "renames": p["renames"],
+                                  "files": {"ws/%s/%s" % (f["crate"], f["rel"]): t for f, t in zip(p["files"], texts)},
+                                  "replay": "write the files, then: typeshare --lang %s %s %s ws" % (
+                                      lang, "-d outdir" if mode == "folder" else "-o out." + EXT[lang], " ".join(lang_args(lang)))},
+                            impl={k_: str(v)[:1500] for k_, v in ra.items()}, failing_input=True)
+            return
+    # ---- the binary: single-file (-o) and folder (-d) output over the same trees
+    for k, p in enumerate(progs):
+        texts = p["texts"]
+        for multi in (False, True):
+            lang = LANGS[(2 * k + multi) % 6]
+            with Scratch() as sc:
+                for f, t in zip(p["files"], texts):
+                    sc.write("ws/%s/%s" % (f["crate"], f["rel"]), t)
+                outs = ["-d", sc.path("outdir")] if multi else ["-o", sc.path("out." + EXT[lang])]
+                r = run_cli(["--lang", lang] + outs + lang_args(lang) + [sc.path("ws")], cwd=sc.dir, timeout=30)
+                written = []
+                if multi and os.path.isdir(sc.path("outdir")):
+                    written = sorted(fn for fn in os.listdir(sc.path("outdir")) if os.path.getsize(os.path.join(sc.path("outdir"), fn)))
+                elif not multi and os.path.exists(sc.path("out." + EXT[lang])) and os.path.getsize(sc.path("out." + EXT[lang])):
+                    written = ["out." + EXT[lang]]
+            check.saw(("renamed-many-cli", lang, multi, "|".join(texts)), nontrivial=bool(p["renames"]))
+            check.count("renamed-many-cli-%s-rc=%s" % ("d" if multi else "o", "timeout" if r["timed_out"] else r["rc"]))
+            problem = None
+            if r["timed_out"]:
+                problem = "did not terminate within 30 s" + (" after: " + [l for l in r["err"].splitlines() if "panicked at" in l][0]
+                                                               if "panicked at" in r["err"] else "")
+            elif "panicked at" in r["err"]:
+                lines = r["err"].splitlines()
+                at = [i for i, l in enumerate(lines) if "panicked at" in l][0]
+                problem = "exit status %s, panicked: %s" % (r["rc"], " ".join(l.strip() for l in lines[at:at + 2]))
+            elif r["rc"] not in (0, 1):
+                problem = "exit status %s" % r["rc"]
+            elif r["rc"] == 1 and not r["err"].strip():
+                problem = "exit status 1 without any diagnostic"
+            elif r["rc"] == 0 and not written:
+                problem = "exit status 0 but no output was written"
+            if problem:
+                check.violation("typeshare --lang %s %s on a program of %s: %s" % (lang, "-d outdir" if multi else "-o out." + EXT[lang], p["label"], problem),
+                                case={"lang": lang, "multi_file": multi, "renames": p["renames"], "command": "typeshare --lang %s %s %s ws" % (
+                                    lang, "-d outdir" if multi else "-o out." + EXT[lang], " ".join(lang_args(lang))),
+                                      "files": {"ws/%s/%s" % (f["crate"], f["rel"]): t for f, t in zip(p["files"], texts)}},
+                                impl={"rc": r["rc"], "stderr": r["err"][-2000:], "written": written}, failing_input=True)
+                return
+    # ---- the same definitions as the model writes
+    both = [(mt, l2.norm(ra)) for mt, m, ra in zip(meta, mreqs, rans) if m is not None]
+    mans = [l2.norm(a) for a in model([m for m in mreqs if m is not None], names=allnames)]
+    for ((p, mode, lang, cfg, texts), ra), ma in zip(both, mans):
+        if ma == ra:
+            check.count("renamed-many-model-agrees")
+            continue
+        check.count("renamed-many-model-differs")
+        check.violation("%s, %s mode: generation differs from the model on a program of %s: %s" % (
+            lang, "single-file" if mode == "single" else "folder", p["label"], corpus_describe(ma, ra)),
+                        case={"lang": lang, "config": cfg, "multi_file": mode == "folder", "renames": p["renames"],
+                              "files": {"%s/%s" % (f["crate"], f["rel"]): t for f, t in zip(p["files"], texts)}},
+                        impl=ra, model=ma, failing_input=False,
+                        broken="correspondence L2 reconcile + generate on many items with container-level renames (theorems TsV.C07_Backends.*)")
+        return
+
+
+def corpus_describe(m, r):
+    import corpus
+    return corpus.describe(m, r)
+
+
 def run(check):
     _run_small(check)
+    if not check.has_failing():
+        renamed_many_part(check)
     if not check.has_failing():
         odd_types_part(check)
     if not check.has_failing():
@@ -532,4 +795,8 @@ def run(check):
     check.rule += ("; 14 spellings of the input roots (relative, single file, several / overlapping / missing / empty roots) x "
                    "{-o, -d} from inside the crate directory; trees of 130-257 (thorough 513) annotated files in 7 crates - more results than the walker's bounded channel "
                    "holds - clean and with one unsupported item in the middle, single- and multi-file mode, 1/2/8/default walker "
-                   "threads: termination within 60 s, exit status, the offending file named, no definition missing")
+                   "threads: termination within 60 s, exit status, the offending file named, no definition missing"
+                   "; programs of 20-80 annotated items of every kind in shuffled / sorted / nearly sorted declaration order, 0-8 of them "
+                   "with a container-level serde(rename) to a name that sorts before / between / after the Rust names, differs in case, "
+                   "equals another item's Rust name or swaps two names, over 1-3 files of 1-2 crates: in-process (six back ends, single-file "
+                   "and folder mode), the binary (-o, -d) and the model")
